@@ -272,6 +272,81 @@ int vh_vdata(void)
 	result(rc == 0);
 	return 0;
     }
+    if (strcmp(op, "set_format") == 0) {	/* vd s set_format <hex> */
+	char *f;
+	int rc;
+	if (na != 1) return -1;
+	f = vh_parse_hexbytes(a[0]);
+	LIB(rc = vnadata_set_format(v, f));
+	free(f);
+	result(rc == 0);
+	return 0;
+    }
+    if (strcmp(op, "get_format") == 0) {
+	const char *f;
+	LIB(f = vnadata_get_format(v));
+	result(f != NULL);
+	vh_out(" ft=%d", (int)vnadata_get_filetype(v));
+	vh_out_hexbytes(f);
+	return 0;
+    }
+    if (strcmp(op, "load") == 0 || strcmp(op, "save") == 0 || strcmp(op, "cksave") == 0) {	/* vd s load <hexpath> */
+	char *f;
+	int rc;
+	if (na != 1) return -1;
+	f = vh_parse_hexbytes(a[0]);
+	LIB(rc = op[0] == 'l' ? vnadata_load(v, f) : op[0] == 's' ? vnadata_save(v, f) : vnadata_cksave(v, f));
+	free(f);
+	result(rc == 0);
+	return 0;
+    }
+    if (strcmp(op, "loadstr") == 0) {		/* vd s loadstr <hexname> <hexcontent>: vnadata_fload from memory */
+	char *name;
+	const char *h;
+	size_t n;
+	unsigned char *buf;
+	FILE *fp;
+	int rc;
+	if (na != 2) return -1;
+	name = vh_parse_hexbytes(a[0]);
+	h = a[1];
+	if (*h == 'x') ++h;
+	if (strcmp(h, "-") == 0) h = "";
+	n = strlen(h) / 2;
+	buf = malloc(n + 1);
+	for (size_t i = 0; i < n; ++i) {
+	    unsigned x;
+	    sscanf(h + 2 * i, "%2x", &x);
+	    buf[i] = (unsigned char)x;
+	}
+	fp = n > 0 ? fmemopen(buf, n, "r") : fopen("/dev/null", "r");
+	if (fp == NULL) { free(buf); free(name); return -1; }
+	LIB(rc = vnadata_fload(v, fp, name));
+	fclose(fp);
+	free(buf);
+	free(name);
+	result(rc == 0);
+	return 0;
+    }
+    if (strcmp(op, "savestr") == 0) {		/* vd s savestr <hexname>: vnadata_fsave into memory */
+	char *name, *buf = NULL;
+	size_t len = 0;
+	FILE *fp;
+	int rc;
+	if (na != 1) return -1;
+	name = vh_parse_hexbytes(a[0]);
+	fp = open_memstream(&buf, &len);
+	LIB(rc = vnadata_fsave(v, fp, name));
+	fclose(fp);
+	free(name);
+	result(rc == 0);
+	if (rc == 0) {
+	    vh_out(" x");
+	    for (size_t i = 0; i < len; ++i) vh_out("%02x", (unsigned char)buf[i]);
+	}
+	free(buf);
+	return 0;
+    }
     if (strcmp(op, "convert") == 0) {	/* vd <src> convert <dst> <type> */
 	int rc, d;
 	if (na != 2) return -1;
